@@ -54,6 +54,12 @@ func NewBundleOutgoingTransfer(id uint64, b bpv7.Bundle) *OutgoingTransfer {
 
 // NextSegment creates the next XFER_SEGMENT for the given MTU or an EOF in case of a finished Writer.
 func (t *OutgoingTransfer) NextSegment(mtu uint64) (dtm *msgs.DataTransmissionMessage, err error) {
+	if mtu == 0 {
+		// A peer announcing a Segment MRU of zero cannot receive any data; empty segments would be sent forever.
+		err = fmt.Errorf("segment MTU of zero, no data can be transferred")
+		return
+	}
+
 	var segFlags msgs.SegmentFlags
 
 	if t.startFlag {
